@@ -965,7 +965,11 @@ func (fr *Frame) ghostCallUpdates(st *State, names string, args []Val, res []Val
 				v = fr.en.zero(old.T)
 			}
 			v = fr.coerce(v, old)
-			if m, ok := iteVal(True, v, old); ok {
+			cond := True
+			if fr.top.hookCond.S != "" {
+				cond = fr.top.hookCond // the hooked event happens only under this condition (a select case)
+			}
+			if m, ok := iteVal(cond, v, old); ok {
 				v = m
 			}
 		}
